@@ -58,7 +58,7 @@ def generate(seed, tier):
         max_sheets=t['max_sheets'],
         p_arr=swarm.pick([0, .1, .2]), p_name=swarm.pick([0, .15, .3]),
         p_cross=swarm.pick([0, .3, .6]), p_text=swarm.pick([0, .08]),
-        p_bool=swarm.pick([0, .06]), p_err=swarm.pick([0, .06]), p_alias=.25, p_arrlit=.06,
+        p_bool=swarm.pick([0, .06]), p_err=swarm.pick([0, .06]), p_alias=.25, p_arrlit=.06, p_refop=swarm.pick([0, .12]),
         w_if=swarm.pick([0, 2]), w_iferror=swarm.pick([0, 1]),
         depth=swarm.pick([1, 2, 3]),
     )
